@@ -200,3 +200,36 @@ Theorem TIE_cstruct_module_equiv :
   exists ts, cprint_module m = Some ts /\ slex fdec text = Some ts.
 Proof. exact gen_module_equiv. Qed.
 Print Assumptions TIE_cstruct_module_equiv.
+
+(* ------------------------------------------------------------------------------------------ *)
+(** * What the skeleton forgets means nothing on the IR machine (spec/IRSem.v::exec), up to fuel:
+      a Block's comment, a Block around one statement ([else { if .. }] vs [else if ..]), the nesting of
+      Blocks (printed without braces).  [OutOfFuel] is the explicit out-of-fuel outcome. *)
+
+From TV Require Import spec.IRSem proofs.GenCStruct_sem.
+
+Theorem TIE_cstruct_sem_comment :
+  forall n ss c st, exec n (Block ss c) st = exec n (Block ss None) st.
+Proof. exact sem_block_comment. Qed.
+Print Assumptions TIE_cstruct_sem_comment.
+
+Theorem TIE_cstruct_sem_singleton :
+  forall n s c st, exec (S n) (Block [s] c) st = exec n s st.
+Proof. exact sem_block_singleton. Qed.
+Print Assumptions TIE_cstruct_sem_singleton.
+
+(** a nested Block spliced into the enclosing list, at any position: same outcome (state, returned
+    value, trace, error) *)
+Theorem TIE_cstruct_sem_splice :
+  forall n pre a c1 r c c' st o,
+    exec (S n) (Block (pre ++ a ++ r) c) st = o -> o <> OutOfFuel ->
+    exec (S (S n)) (Block (pre ++ Block a c1 :: r) c') st = o.
+Proof. exact sem_block_splice. Qed.
+Print Assumptions TIE_cstruct_sem_splice.
+
+Theorem TIE_cstruct_sem_else_block :
+  forall n c a b cm st o,
+    exec (S n) (Branch c a b) st = o -> o <> OutOfFuel ->
+    exec (S (S n)) (Branch c a (Block [b] cm)) st = o.
+Proof. exact sem_else_block. Qed.
+Print Assumptions TIE_cstruct_sem_else_block.
